@@ -174,3 +174,10 @@ def shrCFast (t : ITy) (a b : Int) : Option Int :=
   rfl
 
 end Rt
+
+/-! builder L: unsigned `is_multiple_of` (std: `rhs == 0 → self == 0`, otherwise `self % rhs == 0`; never panics) -/
+namespace Rt
+
+def isMultipleOf (a b : Int) : Bool := if b = 0 then decide (a = 0) else decide (a % b = 0)
+
+end Rt
